@@ -91,6 +91,30 @@ def irregular_days(name):
     return _irregular_cache[name]
 
 
+def other_zone_groups(rng, tier, kind):
+    """the same days asked under one zone after another in ONE process: before every question the previous zone object is
+    dropped, collected, and the next zone loaded at the address the previous one had (the oracle's `zone set`). A day's
+    local midnight under zone B is asked right after the same day's local midnight under zone A."""
+    names = [z for z in ["UTC", "Asia/Tehran", "America/New_York", "Asia/Kolkata", "Etc/GMT+8", "Europe/London", "Pacific/Apia",
+                         "Australia/Lord_Howe", "Asia/Kathmandu", "Etc/GMT-14"] if z in zone_names()]
+    g = []
+    for _ in range(12 if tier == "quick" else 80):
+        jd = rng.randrange(J1970 + 3, J1970 + 47000)
+        zs = rng.sample(names, min(len(names), rng.randint(2, 4)))
+        for name in zs + zs[:1]:
+            off0, tr, _ = zone_data(name)
+            L = (jd - J1970) * 86400
+            m = L - off_at(off0, tr, L - off_at(off0, tr, L))     # the instant that reads 00:00:00 of day jd in this zone
+            g.append(header(name))
+            if kind == "jhms":
+                g += ["zone jhms %d" % m, "zone jhms %d" % (m + rng.choice([1, 3600, 43200]))]
+            elif kind == "dayiv":
+                g += ["zone dayiv %d" % jd, "zone jdrange %d %d" % (m, m + 86400)]
+            else:
+                g += ["zone occ J:%d,%d I:%d:%d:o" % (jd, jd + 1, m - 3600, m + 90000)]
+    return [g]
+
+
 ZONE_ASSUME = [
     "Go's time package (time.Unix(..).In(loc) fields, Zone(), time.Date resolution) and the host IANA tz database are MODELLED: a zone is the list of period boundaries time.ZoneBounds reports between 1800 and 2200, exported by the oracle on every run; time.Date is the two-lookup algorithm the package implements",
     "GetJdByEpoch's float arithmetic floor(J1970 + (epoch+offset)/86400.0) is modelled by exact integer floor division (DESIGN 6.5)",
@@ -148,7 +172,7 @@ class _C10(Spec):
                     add(e0 - o + d)
                     add(e0 - o + 86400 + d)
             groups.append(g)
-        return [Stream("zone-instants", None, groups=groups)]
+        return [Stream("zone-instants", None, groups=groups), Stream("zone-after-another-zone", None, groups=other_zone_groups(rng, tier, "jhms"))]
 
     def exhaustive(self, tier):
         return False
@@ -198,7 +222,7 @@ class _C11(Spec):
                     e = s + rng.choice([1, 2, 86399, 86400, 86401, rng.randrange(1, 400000)])
                     g.append("zone jdrange %d %d" % (s, e))
             groups.append(g)
-        return [Stream("zone-days", None, groups=groups)]
+        return [Stream("zone-days", None, groups=groups), Stream("zone-after-another-zone", None, groups=other_zone_groups(rng, tier, "dayiv"))]
 
     def exhaustive(self, tier):
         return False
@@ -262,7 +286,7 @@ class _C12(Spec):
                     g.append("zone abuse %d %d" % (base + rng.randrange(-2, 3), 1))   # ends with refused occurrence-set calls
                 g.append("zone occ %s %s" % (gen_set(base), gen_set(base)))
             groups.append(g)
-        return [Stream("occurrence", None, groups=groups)]
+        return [Stream("occurrence", None, groups=groups), Stream("zone-after-another-zone", None, groups=other_zone_groups(rng, tier, "occ"))]
 
     def exhaustive(self, tier):
         return False
